@@ -121,6 +121,32 @@ def table():
         final += bool(meta.get("caught_by_final")) and not meta.get("neutralised_by_later_fix")
         rows.append(f"| {meta['id']} | {meta['property']} | {ini} | {fin} | {note} |")
     print(f"{n} kept changes; caught when first evaluated: {first}; caught by the checks as committed: {final}\n")
+    # per round
+    print("| round | kept | caught when first evaluated | neutralised by a later fix | caught by the checks as committed | not caught |\n|---|---|---|---|---|---|")
+    groups = [("1 (A/B)", "AB"), ("2 (C/D)", "CD"), ("3 (E/F)", "EF"), ("4 (G/H)", "GH"), ("5 (I/J)", "IJ"), ("6 (K/L)", "KL"), ("reverse fixes", None)]
+    for label, letters in groups:
+        k = f1 = f2 = neu = 0
+        missed = []
+        for mfile in sorted(glob.glob(f"{SEEDED}/*/meta.json")):
+            meta = json.load(open(mfile))
+            if not meta.get("kept"):
+                continue
+            sid = meta["id"]
+            if letters is None:
+                if not sid.startswith("fixrev"):
+                    continue
+            elif sid.startswith("fixrev") or sid[-1] not in letters:
+                continue
+            k += 1
+            f1 += bool(meta.get("caught_by"))
+            if meta.get("neutralised_by_later_fix"):
+                neu += 1
+            elif meta.get("caught_by_final"):
+                f2 += 1
+            else:
+                missed.append(sid)
+        print(f"| {label} | {k} | {f1 if letters else '-'} | {neu} | {f2} | {', '.join(missed) or '-'} |")
+    print()
     print("| seeded change | property | first evaluation | final checks | what it is / needs |\n|---|---|---|---|---|")
     print("\n".join(rows))
 
